@@ -99,7 +99,7 @@ fn hostile_request(ch: &mut Ch, paths: &[Vec<Vec<u8>>], mid: u16) -> HostileReq 
     };
     p.payload = vec![0x5A; pl.min(1200)];
     let overhead = overhead_of(&p);
-    HostileReq { bytes: p.to_bytes_unlimited().expect("encodes"), overhead, has_block }
+    HostileReq { bytes: ref_encode(&p), overhead, has_block }
 }
 
 pub fn gen_spec(ch: &mut Ch) -> WorldSpec {
